@@ -41,9 +41,10 @@ var ErrDuplicateName = errors.New("duplicate object member name")
 var ErrNonStringName = errors.New("object member name must be a string")
 
 var (
-	errMissingValue  = errors.New("missing value after object name")
-	errMismatchDelim = errors.New("mismatching structural token for object or array")
-	errMaxDepth      = errors.New("exceeded max depth")
+	errMissingValue     = errors.New("missing value after object name")
+	errMismatchDelim    = errors.New("mismatching structural token for object or array")
+	errEndBelowMinDepth = errors.New("cannot end JSON object or array begun by the caller")
+	errMaxDepth         = errors.New("exceeded max depth")
 
 	errInvalidNamespace = errors.New("object namespace is in an invalid state")
 )
@@ -232,6 +233,12 @@ func appendEscapePointerName(b, name []byte) []byte {
 type stateMachine struct {
 	Stack []stateEntry
 	Last  stateEntry
+
+	// MinDepth is the depth that pop operations must not go below.
+	// It is set while a user-provided marshal or unmarshal method or function
+	// holds the coder so that it cannot end a JSON object or array
+	// that was begun by its caller.
+	MinDepth int
 }
 
 // reset resets the state machine.
@@ -242,6 +249,7 @@ func (m *stateMachine) reset() {
 		m.Stack = nil
 	}
 	m.Last = stateTypeArray
+	m.MinDepth = 0
 }
 
 // Depth is the current nested depth of JSON objects and arrays.
@@ -321,6 +329,8 @@ func (m *stateMachine) popObject() error {
 	switch {
 	case !m.Last.isObject():
 		return errMismatchDelim
+	case m.Depth() <= m.MinDepth:
+		return errEndBelowMinDepth
 	case m.Last.needObjectValue():
 		return errMissingValue
 	case !m.Last.isValidNamespace():
@@ -356,6 +366,8 @@ func (m *stateMachine) popArray() error {
 	switch {
 	case !m.Last.isArray() || len(m.Stack) == 0: // forbid popping top-level virtual JSON array
 		return errMismatchDelim
+	case m.Depth() <= m.MinDepth:
+		return errEndBelowMinDepth
 	case !m.Last.isValidNamespace():
 		return errInvalidNamespace
 	default:
